@@ -3,7 +3,7 @@
    the facts it rests on, for every word width / every input; the checked walker skips siblings
    with the validating skipper (Model/SkipAll.v). *)
 From Coq Require Import List Bool Arith NArith ZArith.
-From SonicV Require Import Spec.Ref Model.Bitmap Model.PrefixXor Model.Bracket Model.SkipAll Model.Skip Model.RefSound.
+From SonicV Require Import Spec.Ref Model.Bitmap Model.PrefixXor Model.Bracket Model.SkipAll Model.Skip Model.RefSound Model.ValueEdges.
 Local Close Scope N_scope.
 Local Open Scope nat_scope.
 Import ListNotations.
@@ -33,3 +33,8 @@ Proof. exact skip_value_sound. Qed.
 Theorem reference_span_is_exact : forall strict fuel pos l v a b rest, pvalue strict fuel pos l = Some (v, a, b, rest) ->
   exists w tok, l = w ++ tok ++ rest /\ all_ws w /\ Value tok /\ a = pos + length w /\ b = a + length tok.
 Proof. intros strict fuel. exact (proj1 (pvalue_sound strict fuel)). Qed.
+
+(* ... and a well-formed value is non-empty with no whitespace at either edge, so a span that is
+   exactly one value carries no surrounding whitespace *)
+Theorem value_has_no_edge_whitespace : forall v, Value v -> edge_ok v.
+Proof. exact value_edges. Qed.
